@@ -1,13 +1,22 @@
 """C03 - Exporters are driven one call at a time and within the configured batch bounds."""
 from vcore import Case
 from props import batchcommon as B
+from props import readercommon as RD
+import importlib, os
 
 ID = 'C03'
 GEN = ['Batch', 'SpinLock', 'Ring']
-LEAN_TARGETS = ['OtelVerif.Props.C03']
+LEAN_TARGETS = ['OtelVerif.Props.C03'] + RD.LEAN_TARGETS
 THEOREMS = ['Otel.C03.' + t for t in ('gen_batch_shape', 'batch_bounds', 'export_not_reentrant_batch', 'exports_are_consumed',
                                       'export_not_reentrant_simple')] + ['Otel.Batch.reachable_inv', 'Otel.Batch.inv_astep']
-HARNESSES = [B.H_BSP, B.H_BLP, B.H_SSP, B.H_SLP]
+THEOREMS = THEOREMS + RD.THEOREMS_C03
+HARNESSES = [B.H_BSP, B.H_BLP, B.H_SSP, B.H_SLP] + RD.HARNESSES
+SUBS = [importlib.import_module('props.' + n) for n in () if os.path.exists(os.path.join(os.path.dirname(__file__), n + '.py'))]
+for _m in SUBS:
+    LEAN_TARGETS = LEAN_TARGETS + list(_m.LEAN_TARGETS)
+    THEOREMS = THEOREMS + list(_m.THEOREMS)
+    HARNESSES = HARNESSES + [h for h in _m.HARNESSES if h.name not in {x.name for x in HARNESSES}]
+    GEN = GEN + [g for g in (_m.GEN or []) if g not in GEN]
 ENGINE = 'lean-proof + deterministic-scheduler refinement check (Engine D)'
 RULE = ('schedules of the UNMODIFIED batch_span_processor.cc / batch_log_record_processor.cc (worker + 1-3 producers + 0-2 ForceFlush '
         'callers + 0-2 Shutdown callers + destructor, queue 1-4, batch 1-queue, exporter scripts, timer / spurious wake-up / '
@@ -16,27 +25,49 @@ RULE = ('schedules of the UNMODIFIED batch_span_processor.cc / batch_log_record_
         'non-trivial = at least two threads act; distinct = distinct case line')
 TRUSTED = ['the scheduler shim (sequentially consistent atomics; std::mutex / condition_variable / thread semantics with timeouts and '
            'spurious wake-ups as explicit actions)', 'props/batchcommon.py::abstract (which trace events are protocol events)']
-ASSUMPTIONS = ['sequential consistency', 'the periodic metric reader is not modelled yet (its Export is issued by one collect thread per cycle, joined before the next)']
+ASSUMPTIONS = ['sequential consistency', 'the periodic reader is modelled with Shutdown callers one after the other (concurrent Shutdown calls race on the unsynchronised worker_thread_ in MetricReader::Shutdown and are outside the model)']
 
 
 def corpus():
-    return B.batch_corpus()
+    return B.batch_corpus() + RD.corpus() + [c for m in SUBS for c in m.corpus()]
 
 
 def generate(rng, tier):
-    return B.gen_schedules(rng, tier) + B.gen_simple(rng, tier)
+    return B.gen_schedules(rng, tier) + B.gen_simple(rng, tier) + RD.generate(rng, tier) + [c for m in SUBS for c in m.generate(rng, tier)]
 
 
 def oracle(case, out):
     if out == 'bad-op':
         return ('harness-rejected-case', out)
+    w = case.line.split()[0]
+    if w in RD.WORDS:
+        return RD.oracle(case, out, ('c03',))
+    for m in SUBS:
+        if w in m.WORDS:
+            return m.oracle(case, out)
     if case.line.split()[0] in ('ssp', 'slp'):
         return B.oracle_simple(case, out)
     return B.oracle_c03(case, out)
 
 
-model_line = B.model_line
-agree = B.agree
+def model_line(case, out):
+    w = case.line.split()[0]
+    if w in RD.WORDS:
+        return RD.model_line(case, out)
+    for m in SUBS:
+        if w in m.WORDS:
+            return m.model_line(case, out) if hasattr(m, 'model_line') else case.line
+    return B.model_line(case, out)
+
+
+def agree(case, out, mout):
+    w = case.line.split()[0]
+    if w in RD.WORDS:
+        return RD.agree(case, out, mout)
+    for m in SUBS:
+        if w in m.WORDS:
+            return m.agree(case, out, mout) if hasattr(m, 'agree') else out == mout
+    return B.agree(case, out, mout)
 
 
 def signature(case, out, clause):
@@ -55,6 +86,5 @@ LEVEL_TEXT = ('Lean 4: one inductive invariant over the batch processors\' proto
               'as critical section. Tie: the real processors run under a deterministic scheduler; every execution is abstracted '
               'to protocol events and replayed on the model (each observed value compared), inv_astep proves the replay only '
               'takes protocol steps.')
-LEVEL_NOTE = ('Trusted: Lean kernel; scheduler shim (SC); the event abstraction. Partial: the periodic metric reader clause is covered '
-              'by structure only (not modelled); weak memory orders.')
+LEVEL_NOTE = ('Trusted: Lean kernel; scheduler shim (SC); the event abstraction. Partial: weak memory orders; concurrent Shutdown calls on one periodic reader.')
 DESIGN_REF = 'DESIGN.md section 4, C03; Appendix C'
